@@ -318,7 +318,7 @@ theorem universalDeath_no_compartments (m m' : Model α) (name : String) (ok : B
 
 end
 
-/-! ## 3. Reachable models: "does not exist" read off the current structure
+/-! ## 3. ReachableB models: "does not exist" read off the current structure
 
 None of the theorems above needs a reachability hypothesis.  `Spec.IllFormed` says "compartment `n`
 does not exist" as `n ∉ m.origNames` and "stratum does not exist" as "no stratification of that
@@ -329,12 +329,12 @@ variable {α : Type} [Zero α] [One α] [Add α] [Sub α] [Mul α] [Div α] [Nat
 
 /-- on every reachable model, `origNames` is exactly the set of names of the current (stratified)
 compartments, and stratification names are pairwise distinct -/
-theorem reachable_names (m : Model α) (hr : Reachable m) :
+theorem reachable_names (m : Model α) (hr : ReachableB m) :
     (∀ n, n ∈ m.origNames ↔ ∃ c ∈ m.comps, c.name = n) ∧ (m.strats.map (·.name)).Nodup :=
   ⟨(reachable_wellNamed hr).names, (reachable_wellNamed hr).stratNames⟩
 
 /-- transition-type flow between names one of which no current compartment carries -/
-theorem rejects_flow_comp_absent (m : Model α) (hr : Reachable m) (kind : FlowKind) (name : String)
+theorem rejects_flow_comp_absent (m : Model α) (hr : ReachableB m) (kind : FlowKind) (name : String)
     (ok : Bool) (p : Expr α) (src dst : String) (ss ds : Strata) (ex : Option Nat)
     (h : (∀ c ∈ m.comps, c.name ≠ src) ∨ (∀ c ∈ m.comps, c.name ≠ dst)) :
     (addFlow m (.transition kind name ok p src dst ss ds ex)).isOk = false :=
@@ -343,14 +343,14 @@ theorem rejects_flow_comp_absent (m : Model α) (hr : Reachable m) (kind : FlowK
           (fun h hn => let ⟨c, hc, hcn⟩ := ((reachable_wellNamed hr).names dst).mp hn; h c hc hcn)
 
 /-- stratifying a name that no current compartment carries -/
-theorem rejects_stratified_absent (m : Model α) (hr : Reachable m) (s : Strat α)
+theorem rejects_stratified_absent (m : Model α) (hr : ReachableB m) (s : Strat α)
     (h : ∃ n ∈ s.comps, ∀ c ∈ m.comps, c.name ≠ n) : (stratifyWith m s).isOk = false :=
   let ⟨n, hn, hno⟩ := h
   rejects_stratified_unknown m s ⟨n, hn, fun hmem =>
     let ⟨c, hc, hcn⟩ := ((reachable_wellNamed hr).names n).mp hmem; hno c hc hcn⟩
 
 /-- an adjustment filter naming an existing stratification and a stratum it does not have -/
-theorem rejects_filter_stratum_absent (m : Model α) (hr : Reachable m) (s : Strat α)
+theorem rejects_filter_stratum_absent (m : Model α) (hr : ReachableB m) (s : Strat α)
     (h : ∃ d ∈ s.flowAdj, ∃ kv ∈ d.srcStrata ++ d.dstStrata,
       ∃ t ∈ m.strats, t.name = kv.1 ∧ kv.2 ∉ t.strata) : (stratifyWith m s).isOk = false :=
   let ⟨d, hd, kv, hkv, t, ht, hname, hnot⟩ := h
@@ -592,7 +592,7 @@ example : (addFlow m0 (.death "d" true (.const 1) "X" [] none)).isOk = true ∧
 /-! ### reachable models -/
 
 /-- `m2p` (SIR + four flow calls + partial stratification built by `mkStrat`) is reachable -/
-theorem m2p_reachable : Reachable m2p :=
+theorem m2p_reachable : ReachableB m2p :=
   .stratify (sp := spPart) (s := sPart)
     (.addFlow (op := opUD) (.addFlow (op := opBirth) (.addFlow (op := opRec) (.addFlow (op := opInf)
       (.mk (t0 := 0) (t1 := 10) (dt := 1) (ws := some 10) (comps := ["S", "I", "R"]) (inf := ["I"]) (m := m0) rfl)
